@@ -14,7 +14,7 @@ import chain_lib
 def run(ctx):
     quick = ctx.tier == "quick"
     cfg = "cfg/ForksGen.quick.cfg" if quick else "cfg/ForksGen.thorough.cfg"
-    parts = [chain_lib.run_forks(ctx, cfg, epochs=(100, 2)), chain_lib.run_casper(ctx)]
+    parts = [chain_lib.run_forks(ctx, cfg, epochs=(100, 2)), chain_lib.run_casper(ctx), chain_lib.run_ledger(ctx)]
     chain_lib.finish_chain(ctx, parts,
         rule="every transition of Forks.tla and CasperNode.tla within the cfg bounds, replayed with its path; after the last call "
              "of each path (every prefix is a path of its own) best block, height index and InMainChain of every block are compared",
